@@ -40,6 +40,7 @@ type UEntry struct {
 	Crd        int  // -1 = None
 	FInv       bool // identifier fails field validation (namespace on a cluster-scoped kind / none on a namespaced one)
 	KeepVar    int  // spelling of the keep attribute (index into keepVariants; 0 = by parity of the id)
+	Fin        bool // every incarnation carries metadata.finalizers [finalizerName]; nobody removes it
 }
 
 type Universe []UEntry
@@ -51,7 +52,9 @@ func optNat(i int) string {
 	return fmt.Sprintf("(Some %d)", i)
 }
 
-func (u UEntry) Coq() string { return emit.App("mkU", u.Kind.Coq(), optNat(u.NsObj), optNat(u.Crd)) }
+func (u UEntry) Coq() string {
+	return emit.App("mkUF", u.Kind.Coq(), optNat(u.NsObj), optNat(u.Crd), emit.Bool(u.Fin))
+}
 
 func (u Universe) Coq() string {
 	s := make([]string, len(u))
@@ -678,6 +681,9 @@ func (u Universe) Text() string {
 		s[i] = fmt.Sprintf("%d=%s:%s%s", i, e.Meta.GroupKind.Kind, ns, e.Meta.Name)
 		if e.KeepVar > 0 {
 			s[i] += fmt.Sprintf("~k%d", e.KeepVar)
+		}
+		if e.Fin {
+			s[i] += "~fin"
 		}
 	}
 	return strings.Join(s, " ")
